@@ -266,6 +266,11 @@ FAMILIES = [
         [_none, _append("flow_logs", lambda i: {"LogDestinationType": f"d{i}", "FlowLogStatus": "no"}),
          _append("flow_logs", lambda i: {"LogDestinationType": "no", "FlowLogStatus": f"st{i}"}),
          _append("flow_logs", lambda i: {"LogDestinationType": "no", "FlowLogStatus": "no"})]),
+    # no ``enabled:`` key: the clause is just the alternatives of its attributes (a top-level ``||``)
+    Fam("flow_logs_noenabled", lambda i: {"type": "flow-logs", "destination-type": f"d{i}", "status": f"st{i}"},
+        [_append("flow_logs", lambda i: {"LogDestinationType": "no", "FlowLogStatus": "no"}),
+         _append("flow_logs", lambda i: {"LogDestinationType": "no", "FlowLogStatus": f"st{i}"}),
+         _append("flow_logs", lambda i: {"LogDestinationType": f"d{i}", "FlowLogStatus": "no"})]),
     Fam("flow_logs_off", lambda i: {"type": "flow-logs", "enabled": False},
         [_append("flow_logs", lambda i: {"LogDestinationType": "any", "FlowLogStatus": "no"}), _none], slot="flow_logs_off"),
     Fam("tag_count", lambda i: {"type": "tag-count", "count": 2}, [_none, _filler_tags], slot="tag_count", rep=True),
